@@ -42,6 +42,8 @@ def Frame.byte (f : Frame) (i : Nat) : Nat := f.b.getD i 0
 /-- what the CAN driver hands over: an 8 byte buffer and a DLC of at most 8 -/
 def WFrame (f : Frame) : Prop := f.b.length = 8 ∧ f.len ≤ 8
 
+instance (f : Frame) : Decidable (WFrame f) := by unfold WFrame; infer_instance
+
 /-- `CanIdToN2k` + the driver buffer (bytes beyond the DLC are the buffer's previous content: `fill`) -/
 def decode (id len : Nat) (bytes : List Nat) (fill : Nat := 0xAA) : Frame :=
   let r := N2k.Send.canIdToN2k id
